@@ -278,7 +278,7 @@ func (w *c20World) must(msg sdk.Msg) chain.ExecResult {
 
 func runC20(c *vk.Ctx) {
 	c.R.Rule = "cases = histories on a real app with 4 users, an LP, a balancer pool and a concentrated pool whose share denoms are superfluid assets. World operations create and evolve owned objects (concentrated positions incl. superfluid full-range ones, position transfers, locks that are plain / unlocking / superfluid-delegated / undelegating with reward receivers, factory denoms with admin changes and renounced admins, factory tokens locked in x/lockup and held by pools). Probes: for an object and each message type acting on it (5 concentrated-liquidity, 4 lockup, 7 superfluid, 6 token-factory message types) the message is executed for the rightful sender on a discarded fork (validity), then for every other sender kind (other users, previous owners/admins/creators, reward receiver, pool addresses, 11 module accounts, validator owner, intermediary account) on further forks: it must fail, and the fork digest over all stores must be unchanged. Admin probes on protected module accounts (named in lower- or upper-case bech32): mint-to, burn-from, force-transfer-from/to. Re-creation of an existing denom by its creator (whatever became of the admin) must fail. distinct_nontrivial counts distinct (message type, object kind, object state, sender kind) tuples among probes whose message was valid for the rightful sender (or for which nobody is entitled)."
-	nHist := c.N(240, 24000)
+	nHist := c.N(960, 24000)
 	opsPer := c.N(60, 100)
 	c.Cases("history", nHist, func(i int, r *vk.Rng) {
 		ch := chain.New(chain.Options{Denoms: []string{"xxx"}, NumAccounts: 6, NumValidators: 2, Epochs: map[string]time.Duration{"day": 5 * time.Hour, "week": 6 * time.Hour}})
